@@ -76,3 +76,13 @@ ASSUMPTIONS = [
 ]
 TRUSTED = ['reference semantics contracts/ref_mut.py']
 EXPLANATION = 'Delete._del_one (per addressing style), Delete.glomit (wildcard-free) and _apply_for_each are proved equal to reference semantics.'
+
+CANARIES = [
+    {'name': 'del_one: ignore_missing inverted', 'module': 'mutation', 'only': ['mutation.Delete._del_one'], 'expect': ['mutation.Delete._del_one'],
+     'old': "            except AttributeError as e:\n                if not self.ignore_missing:", 'new': "            except AttributeError as e:\n                if self.ignore_missing:"},
+    {'name': 'Delete.glomit: parent errors swallowed without the flag', 'module': 'mutation', 'only': ['mutation.Delete.glomit'], 'expect': ['mutation.Delete.glomit'],
+     'old': "        except PathAccessError as pae:\n            if not self.ignore_missing:\n                raise\n        else:\n            _apply_for_each(lambda dest: self._del_one",
+     'new': "        except PathAccessError as pae:\n            pass\n        else:\n            _apply_for_each(lambda dest: self._del_one"},
+    {'name': 'del_one: KeyError no longer translated', 'module': 'mutation', 'only': ['mutation.Delete._del_one'], 'expect': ['mutation.Delete._del_one'],
+     'old': "            except (KeyError, IndexError) as e:", 'new': "            except IndexError as e:"},
+]
